@@ -486,6 +486,51 @@ def s_change_version_node(prog, rng):
     return q, Expect("change-version-node", affected=[f.name], removed=[f.name], added=[f.name])
 
 
+def s_add_default_version_variable(prog, rng):
+    c = [v for v in prog.exported_variables() if not v.version and not v.weak and not v.visibility and not v.aliases and not v.common]
+    if not c:
+        return None
+    v = rng.choice(c)
+    q = prog.clone()
+    v2 = [x for x in q.variables if x.name == v.name][0]
+    v2.version = ("VERS_%s_1" % q.nonce.upper(), True)
+    return q, Expect("add-default-version-variable", affected=[v.name])
+
+
+def s_change_version_node_variable(prog, rng):
+    c = [v for v in prog.exported_variables() if v.version and v.version[1]]
+    if not c:
+        return None
+    v = rng.choice(c)
+    q = prog.clone()
+    v2 = [x for x in q.variables if x.name == v.name][0]
+    v2.version = ("VERS_%s_9" % q.nonce.upper(), True)
+    return q, Expect("change-version-node-variable", affected=[v.name], removed=[v.name], added=[v.name])
+
+
+def s_add_old_version(prog, rng):
+    """keep an older, non-default version of a default-versioned function (f@OLD next to f@@NEW)"""
+    c = [f for f in prog.exported_functions() if f.version and f.version[1] and not f.aliases and not f.weak and not getattr(f, "old_versions", [])]
+    if not c:
+        return None
+    f = rng.choice(c)
+    q = prog.clone()
+    f2 = [x for x in q.functions if x.name == f.name][0]
+    f2.old_versions = ["VERS_%s_0" % q.nonce.upper()]
+    return q, Expect("add-old-version", affected=[f.name], added=[f.name])
+
+
+def s_drop_old_version(prog, rng):
+    c = [f for f in prog.exported_functions() if f.version and f.version[1] and getattr(f, "old_versions", [])]
+    if not c:
+        return None
+    f = rng.choice(c)
+    q = prog.clone()
+    f2 = [x for x in q.functions if x.name == f.name][0]
+    f2.old_versions = []
+    return q, Expect("drop-old-version", affected=[f.name], removed=[f.name])
+
+
 def s_add_alias(prog, rng):
     c = [f for f in prog.exported_functions() if not f.version or f.version[1]]
     if not c:
@@ -510,7 +555,10 @@ def s_remove_alias(prog, rng):
 
 
 SYMBOL = {"add-default-version": s_add_default_version, "change-version-node": s_change_version_node,
-          "add-alias": s_add_alias, "remove-alias": s_remove_alias}
+          "add-alias": s_add_alias, "remove-alias": s_remove_alias,
+          "add-default-version-variable": s_add_default_version_variable,
+          "change-version-node-variable": s_change_version_node_variable,
+          "add-old-version": s_add_old_version, "drop-old-version": s_drop_old_version}
 
 MIXED = {}
 MIXED.update(BREAKING)
